@@ -60,33 +60,40 @@ func (p Pattern) Matches(s string) bool {
 	si := 0
 	pl := len(p)
 	sl := len(s)
+	// start tells if we are at the start of a pattern token, which is the only
+	// position where $, *, and > have a wildcard meaning.
+	start := true
 	for pi < pl {
 		if si == sl {
 			return false
 		}
 		c := p[pi]
 		pi++
-		switch c {
-		case '$':
-			fallthrough
-		case '*':
-			for pi < pl && p[pi] != '.' {
-				pi++
+		if start {
+			start = false
+			switch c {
+			case '$':
+				fallthrough
+			case '*':
+				for pi < pl && p[pi] != '.' {
+					pi++
+				}
+				if s[si] == '>' {
+					return false
+				}
+				for si < sl && s[si] != '.' {
+					si++
+				}
+				continue
+			case '>':
+				return pi == pl
 			}
-			if s[si] == '>' {
-				return false
-			}
-			for si < sl && s[si] != '.' {
-				si++
-			}
-		case '>':
-			return pi == pl
-		default:
-			if c != s[si] {
-				return false
-			}
-			si++
 		}
+		if c != s[si] {
+			return false
+		}
+		si++
+		start = c == '.'
 	}
 	return si == sl
 }
